@@ -692,7 +692,7 @@ impl rsass_verif_fs::Backend for SimBackend {
             None => false,
         }
     }
-    fn open(&self, path: &std::path::Path) -> io::Result<Box<dyn Read>> {
+    fn open(&self, path: &std::path::Path) -> io::Result<rsass_verif_fs::Opened> {
         let shown = path.display().to_string();
         let idx;
         {
@@ -715,14 +715,15 @@ impl rsass_verif_fs::Backend for SimBackend {
                     path: shown,
                     res: FindRes::Hit { base: 0, canon: canon.clone() },
                 });
-                Ok(Box::new(LoaderState::open(&self.st, &canon, data)))
+                let len = data.len() as u64;
+                Ok(rsass_verif_fs::Opened { reader: Box::new(LoaderState::open(&self.st, &canon, data)), is_dir: false, len })
             }
             None => {
                 // POSIX: open(2) of a directory succeeds read-only; the read fails with EISDIR
                 let is_dir = self.dir(path).is_some_and(|(base, rel)| self.fs.resolve_dir(&base, &rel).is_some());
                 self.st.borrow_mut().history.push(Event::Open { idx, path: shown, res: FindRes::Miss });
                 if is_dir {
-                    return Ok(Box::new(DirHandle));
+                    return Ok(rsass_verif_fs::Opened { reader: Box::new(DirHandle), is_dir: true, len: 4096 });
                 }
                 // a regular file where a directory is needed: ENOTDIR, not ENOENT
                 let enotdir = self.dir(path).is_some_and(|(base, rel)| self.fs.blocked_by_file(&base, &rel));
